@@ -9,7 +9,7 @@
 (***************************************************************************************)
 EXTENDS Integers, Sequences, FiniteSets, TLC, Json
 
-CONSTANT Dev    \* "none" | "pow_exponent_truncated" | "mul_any_operands" | "digitize_strict"
+CONSTANT Dev    \* "none" | "pow_exponent_truncated" | "mul_any_operands" | "digitize_strict" | "lpnorm_ignores_layout"
 
 \* ---------- reductions ---------------------------------------------------------------
 XU == <<<<0, 1, 4>>, <<9, 4, 1>>>>            \* unsigned perfect squares (rational powers stay integral)
@@ -57,6 +57,26 @@ Reduce(c, F(_, _, _)) ==
 Meaning(c) == Reduce(c, Elem)
 Lowered(c) == IF Fuses(c) THEN Reduce(c, FusedElem) ELSE Reduce(c, Elem)
 
+\* ---------- x / ||x||_p  -> LpNormalization (plugins/jax/lax/div.py) ------------------------------------
+\* The norm is reduced WITHOUT keeping the axis and then put back next to x: in place ("restore": the result is
+\* x normalised along that axis) or on the other side ("other_side": every element is divided by the norm of
+\* ANOTHER row / column -- legal for a square x, and not an LpNormalization).  Results are exact rationals.
+X3 == <<<<3, 4, 0>>, <<0, 0, 2>>, <<4, 3, 0>>>>          \* row 2-norms 5, 2, 5; column 2-norms 5, 5, 2
+LCases == {[kind |-> "lpnorm", p |-> p, axis |-> a, layout |-> l] :
+              p \in {1, 2}, a \in {0, 1, -1}, l \in {"keepdims", "restore", "other_side"}}
+LAxis(c) == IF c.axis < 0 THEN c.axis + 2 ELSE c.axis
+Line(c, k) == IF LAxis(c) = 1 THEN X3[k] ELSE [i \in 1..3 |-> X3[i][k]]
+Isqrt9(n) == CHOOSE r \in 0..9 : r * r = n
+NormOf(c, k) == LET v == Line(c, k) IN
+    IF c.p = 1 THEN Abs(v[1]) + Abs(v[2]) + Abs(v[3]) ELSE Isqrt9(v[1] * v[1] + v[2] * v[2] + v[3] * v[3])
+\* which line's norm meets element (i, j)
+DenIndex(c, i, j, inplace) == IF (LAxis(c) = 1) = inplace THEN i ELSE j
+LMeaning(c) == [i \in 1..3 |-> [j \in 1..3 |-> <<X3[i][j], NormOf(c, DenIndex(c, i, j, c.layout # "other_side"))>>]]
+LFuses(c) == c.layout # "other_side" \/ Dev = "lpnorm_ignores_layout"
+LLowered(c) == IF LFuses(c) THEN [i \in 1..3 |-> [j \in 1..3 |-> <<X3[i][j], NormOf(c, DenIndex(c, i, j, TRUE))>>]]   \* LpNormalization(axis)
+               ELSE LMeaning(c)
+RatEq(a, b) == a[1] * b[2] = b[1] * a[2]
+
 \* ---------- order semantics on ties ----------------------------------------------------
 BinSets == {<<0, 1, 3>>, <<3, 1, 0>>, <<1, 1, 2>>, <<2, 1, 1>>, <<2>>, <<0, 2, 4, 6>>, <<6, 4, 2, 0>>}
 Queries == <<0, 1, 2, 3, 4, 7, -1>>
@@ -80,12 +100,13 @@ OrderResult(c) ==
             IN <<(CHOOSE k \in 1..Len(c.bins) : c.bins[k] = best /\ \A k2 \in 1..(k - 1) : c.bins[k2] # best) - 1>>      \* FIRST occurrence
 
 VARIABLE case
-Init == case \in {c \in RCases : RLegal(c)} \cup OCases
+Init == case \in {c \in RCases : RLegal(c)} \cup OCases \cup LCases
 Next == UNCHANGED case
 Spec == Init /\ [][Next]_case
 
 \* a fusion never changes the value
 FusionSound == case.kind = "reduce" => Lowered(case) = Meaning(case)
+LpNormSound == case.kind = "lpnorm" => \A i, j \in 1..3 : RatEq(LLowered(case)[i][j], LMeaning(case)[i][j])
 \* digitize is monotone in the query for increasing bins, antitone for decreasing ones; right = TRUE never exceeds right = FALSE
 \* for increasing bins (and never falls below it for decreasing ones); they differ exactly on ties
 DigitizeLaws == case.kind = "digitize" =>
@@ -95,6 +116,6 @@ DigitizeLaws == case.kind = "digitize" =>
     /\ \A q \in 1..Len(Queries) :
           (r[q] # other[q]) <=> (\E k \in 1..Len(case.bins) : case.bins[k] = Queries[q])
 Emit == PrintT(ToJson([c |-> case,
-                       x |-> IF case.kind = "reduce" THEN InputOf(case) ELSE <<Queries>>,
-                       want |-> IF case.kind = "reduce" THEN Meaning(case) ELSE OrderResult(case)]))
+                       x |-> IF case.kind = "reduce" THEN InputOf(case) ELSE IF case.kind = "lpnorm" THEN X3 ELSE <<Queries>>,
+                       want |-> IF case.kind = "reduce" THEN Meaning(case) ELSE IF case.kind = "lpnorm" THEN LMeaning(case) ELSE OrderResult(case)]))
 =============================================================================
